@@ -71,7 +71,8 @@ def run(chk):
         d = rng.choice(list(DEFAULT_ATTRS))
         cases.append((rnd(rng.randint(1, 4)), DEFAULT_ATTRS[d], d in ("bare", "merged_rename", "separate", "after_other")))
         labels.append({"default": d, "shape": "random", "t": "random"})
-    events, meta = typecases.run_trees(chk, cases, configs=("base",))
+    configs = tuple(sorted(res.replays[0]["configs"]))          # MC_C04!Configs
+    events, meta = typecases.run_trees(chk, cases, configs=configs)
     # the plain twin of every case: the core type (leading Options / pointers removed), no default attribute
     def core(t):
         while t["k"] in ("option", "wrap", "ref", "path"):
@@ -80,15 +81,15 @@ def run(chk):
     cores = {}
     for t, _, _ in cases:
         cores.setdefault(typecases.rust_text(core(t)), core(t))
-    tw_events, tw_meta = typecases.run_trees(common.Check(chk.pid, chk.tier, chk.seed), [(t, None, False) for t in cores.values()], configs=("base",))
+    tw_events, tw_meta = typecases.run_trees(common.Check(chk.pid, chk.tier, chk.seed), [(t, None, False) for t in cores.values()], configs=configs)
     plain = {}
     for e, m in zip(tw_events, tw_meta):
         if e is not None:
-            plain[(e["lang"], e["pos"], typecases.rust_text(e["rust"]))] = e["ty"]
+            plain[(e["lang"], m[1], e["pos"], typecases.rust_text(e["rust"]))] = e["ty"]
     for i, e in enumerate(events):
         if e is None:
             continue
-        key = (e["lang"], e["pos"], typecases.rust_text(core(e["rust"])))
+        key = (e["lang"], meta[i][1], e["pos"], typecases.rust_text(core(e["rust"])))
         if key not in plain:
             events[i] = None          # no twin observation for this position (reported by the twin's own batch if it matters)
             meta[i] = meta[i][:6] + ("twin-missing",) + meta[i][7:]
@@ -98,7 +99,7 @@ def run(chk):
     for i in idx:
         e, m = events[i], meta[i]
         lab = labels[m[7]]
-        chk.judged((e["lang"], e["pos"], typecases.rust_text(e["rust"]), lab.get("default")))
+        chk.judged((e["lang"], m[1], e["pos"], typecases.rust_text(e["rust"]), lab.get("default")))
         if i in rejected:
             lang, cname, pos, tree, da, src, _, _ci = m
             a = typecases.abs_tree(tree)
@@ -113,15 +114,15 @@ def run(chk):
                     kind = "unclassified"
             cause = ("Option+default" if a["k"] == "opt" and e["default"] else "Option" if a["k"] == "opt" else
                      "default-on-non-option" if e["default"] else "neither")
-            chk.mismatch(f"C04/{lang}/{pos}/{cause}/{kind}",
+            chk.mismatch(f"C04/{lang}{'' if cname == 'base' else '+' + cname}/{pos}/{cause}/{kind}",
                          f"{lang} {pos}: `{typecases.rust_text(tree)}` with {da}: optional={e['optional']} ty={e['ty']} (required optional={req})",
-                         {"tree": tree, "default_attr": da, "bare": e["default"], "lang": lang, "pos": pos}, f"optional={req}", f"optional={e['optional']} ty={e['ty']}")
+                         {"tree": tree, "default_attr": da, "bare": e["default"], "lang": lang, "pos": pos, "config": cname}, f"optional={req}", f"optional={e['optional']} ty={e['ty']}")
     chk.extra["trace_events"] = len(idx)
 
 
 def replay(chk, rec):
     c = rec["case"]
-    events, meta = typecases.run_trees(chk, [(c["tree"], c["default_attr"], c["bare"])], configs=("base",))
+    events, meta = typecases.run_trees(chk, [(c["tree"], c["default_attr"], c["bare"])], configs=(c.get("config", "base"),))
     keep = [(e, m) for e, m in zip(events, meta) if m[0] == c["lang"] and m[2] == c["pos"] and e is not None]
     if not keep:
         chk.mismatch(rec["signature"], rec["what"], c, rec["expected"], "position missing")
